@@ -1,9 +1,12 @@
-import G3D.Proofs.HandlersTieNoErr
-import G3D.Proofs.FlatPolygon
+import G3D.Proofs.HandlersTieFlat
+import G3D.Proofs.HandlersTiePolygon
+import G3D.Proofs.HandlersTiePolyhedron
+import G3D.Proofs.HandlersTieBody
 /-! # The extracted handler bodies agree with the hand-written model
 
     `G3D.Extracted.h_<name>` is the statement-by-statement translation of the Python function `<name>`
-    (tools/extract_handlers.py, regenerated from the source on every check run); the definitions of
+    (tools/extract_h{flat,polygon,polyhedron,body}.py over the shared engine tools/hextract.py, regenerated from the
+    source on every check run into `G3D/Extracted/H{flat,polygon,polyhedron,body}.lean`); the definitions of
     `G3D.Model.InterBody` / `InterFlat` are the hand-written model that all exactness proofs are about.
     One theorem per Python function: on operands of the right type the two agree — for ALL such operands (no
     validity assumed), except `inter_convexpolygon_convexpolygon`, which needs two side conditions (see there).
@@ -21,1200 +24,8 @@ import G3D.Proofs.FlatPolygon
       - statically resolved dispatch, merged loops (`crossHits` threads the accumulator through the helper, the code
         unions per-edge sets: `edgeHits_acc`), dropped dead branches (`inter_segment_convexpolyhedron`'s final `else`,
         `inter_line_convexpolyhedron`'s implicit `return None`), reordered checks (`get_segment_from_point_list`:
-        all parallelism tests before the division in the model, interleaved in the code: `forIn_relStep`). -/
-set_option linter.unusedSimpArgs false
-set_option linter.unusedVariables false
-namespace G3D.Tie
-open V3 PyRt Extracted
-
-/-! ## helpers of calc/aux_calc.py -/
-
-/-! ### `get_segment_from_point_list` -/
-
-/-- list elements paired with their Python index -/
-def indexed {α : Type} (lo : Int) : List α → List (α × Int)
-  | [] => []
-  | x :: xs => (x, lo) :: indexed (lo + 1) xs
-
-theorem map_snd_indexed {α : Type} (xs : List α) (lo : Int) :
-    (indexed lo xs).map (fun xi => Val.int xi.2) = (intsFrom lo xs.length).map Val.int := by
-  induction xs generalizing lo with
-  | nil => rfl
-  | cons x xs ih => simp [indexed, intsFrom, ih]
-
-theorem mem_indexed {α : Type} (xs : List α) (lo : Int) (x : α) (i : Int) (h : (x, i) ∈ indexed lo xs) :
-    ∃ k : Nat, i = lo + k ∧ xs[k]? = some x := by
-  induction xs generalizing lo with
-  | nil => simp [indexed] at h
-  | cons y ys ih =>
-    simp only [indexed, List.mem_cons, Prod.mk.injEq] at h
-    rcases h with ⟨rfl, rfl⟩ | h
-    · exact ⟨0, by simp, rfl⟩
-    · obtain ⟨k, hk, hx⟩ := ih (lo + 1) h
-      exact ⟨k + 1, by rw [hk]; push_cast; omega, by simpa using hx⟩
-
-theorem forIn_indexed {α σ : Type} (xs : List α) (lo : Int) (s : σ) (step : α → σ → PyM (ForInStep σ)) :
-    forIn (indexed lo xs) s (fun xi => step xi.1) = forIn xs s step := by
-  induction xs generalizing lo s with
-  | nil => rfl
-  | cons x xs ih =>
-    simp only [indexed, List.forIn_cons]
-    congr 1; funext r; cases r <;> simp [ih]
-
-theorem pyIndex_seq_nat (l : List Obj) (k : Nat) (o : Obj) (h : l[k]? = some o) :
-    pyIndex (.seq l) (.int (k : Int)) = .ok (.obj o) := by
-  have hk : k < l.length := by
-    rcases Nat.lt_or_ge k l.length with hlt | hge
-    · exact hlt
-    · rw [List.getElem?_eq_none hge] at h; cases h
-  obtain ⟨_, hget⟩ := List.getElem?_eq_some_iff.mp h
-  simp [pyIndex, normIdx, hk, hget]
-
-def relStep (p0 v0 : V3) (pi : V3) (rels : List Rat) : PyM (ForInStep (List Rat)) :=
-  if !(V3.parallel (sub pi p0) v0) then .error .value
-  else if normSq v0 = 0 then .error (.ctor .zeroDiv)
-  else .ok (.yield (rels ++ [dot (sub pi p0) v0 / normSq v0]))
-
-theorem forIn_relStep (p0 v0 : V3) (rest : List V3) (rels : List Rat) :
-    forIn rest rels (relStep p0 v0) =
-      if rest.any (fun pi => !(V3.parallel (sub pi p0) v0)) then .error .value
-      else if rest ≠ [] ∧ normSq v0 = 0 then .error (.ctor .zeroDiv)
-      else .ok (rels ++ rest.map (fun pi => dot (sub pi p0) v0 / normSq v0)) := by
-  induction rest generalizing rels with
-  | nil => simp
-  | cons p rest ih =>
-    simp only [List.forIn_cons, relStep, List.any_cons]
-    by_cases hp : V3.parallel (sub p p0) v0 = true
-    · simp only [hp, Bool.not_true, Bool.false_eq_true, if_false, Bool.false_or]
-      by_cases hn : normSq v0 = 0
-      · have hv : v0 = zero := normSq_eq_zero.mp hn
-        have : (rest.any fun pi => !V3.parallel (sub pi p0) v0) = false := by
-          rw [List.any_eq_false]; intro x _; rw [hv, parallel_zero_right]; simp
-        simp [hn, this]
-      · simp only [hn, if_false, ok_bind, ih, and_false]
-        split
-        · rfl
-        · simp
-    · have hp' : V3.parallel (sub p p0) v0 = false := by simpa using hp
-      simp [hp']
-
-theorem h_get_segment_from_point_list_eq (ps : List V3) :
-    h_get_segment_from_point_list (Val.ptSeq ps) =
-      (fun s => Val.obj (.flat (.seg s))) <$> segmentFromPointList ps := by
-  unfold h_get_segment_from_point_list
-  match ps with
-  | [] => simp [pyrt, Val.ptSeq, segmentFromPointList]
-  | [p] => simp [pyrt, Val.ptSeq, segmentFromPointList]
-  | p0 :: p1 :: rest =>
-    have hlen : ¬ ((rest.length : Int) + 1 + 1 < 2) := by omega
-    have hn : ((rest.length : Int) + 1 + 1 - 2).toNat = rest.length := by omega
-    have hlit : pyListLit [Val.int 0, Val.int 1] = .ok (.nums [0, 1]) := by
-      simp [pyListLit, allObjs?, allNums?, Val.asRat?]
-    simp only [pyrt, Val.ptSeq, List.map_cons, List.length_cons, Nat.cast_add, Nat.cast_one, hlen, decide_false,
-      Bool.false_eq_true, if_false, ptObj, hn, hlit, List.length_map]
-    rw [← map_snd_indexed rest 2]
-    rw [show Val.nums [0, 1] = Val.nums ((fun r : List Rat => r) [0, 1]) from rfl]
-    rw [forIn_repr (fun xi : V3 × Int => Val.int xi.2) Val.nums (indexed 2 rest) _ (fun xi => relStep p0 (sub p1 p0) xi.1)]
-    rotate_left
-    · intro ⟨pi, i⟩ hmem rels
-      obtain ⟨k, rfl, hk⟩ := mem_indexed rest 2 pi i hmem
-      have hidx : pyIndex (Val.seq (Obj.flat (Geo.point p0) :: Obj.flat (Geo.point p1) :: List.map ptObj rest)) (Val.int (2 + ↑k))
-          = .ok (.obj (.flat (.point pi))) := by
-        have := pyIndex_seq_nat (Obj.flat (Geo.point p0) :: Obj.flat (Geo.point p1) :: List.map ptObj rest) (k + 2)
-          (.flat (.point pi)) (by simp [hk, ptObj])
-        rw [← this]; congr 2; push_cast; omega
-      simp only [hidx, pyrt, relStep]
-      by_cases hp : V3.parallel (sub pi p0) (sub p1 p0) = true
-      · by_cases hz : normSq (sub p1 p0) = 0 <;> simp [hp, hz, pyrt, ForInStep.map']
-      · have hp' : V3.parallel (sub pi p0) (sub p1 p0) = false := by simpa using hp
-        simp [hp', pyrt]
-    rw [forIn_indexed, forIn_relStep]
-    simp only [segmentFromPointList]
-    split
-    · simp
-    · split
-      · simp
-      · simp only [pyrt, List.cons_append, List.nil_append, List.foldl_cons, min_self, max_self]
-        split <;> simp_all
-
-/-! ### `points_in_a_line` -/
-
-def allStep {α : Type} (c : α → Bool) (x : α) (_ : Option Bool) : PyM (ForInStep (Option Bool)) :=
-  if c x then .ok (.yield none) else .ok (.done (some false))
-
-theorem forIn_allStep {α : Type} (c : α → Bool) (xs : List α) :
-    forIn xs none (allStep c) = .ok (if xs.all c then none else some false) := by
-  induction xs with
-  | nil => simp
-  | cons x xs ih =>
-    simp only [List.forIn_cons, allStep, List.all_cons]
-    by_cases h : c x = true
-    · simp [h, ih]
-    · have h' : c x = false := by simpa using h
-      simp [h']
-
-theorem h_points_in_a_line_eq (ps : List V3) :
-    h_points_in_a_line (Val.ptSeq ps) = Val.bool <$> pointsInALine ps := by
-  unfold h_points_in_a_line
-  match ps with
-  | [] => simp [pyrt, Val.ptSeq, pointsInALine]
-  | [p] => simp [pyrt, Val.ptSeq, pointsInALine]
-  | p0 :: p1 :: rest =>
-    have hn : ((rest.length : Int) + 1 + 1 - 2).toNat = rest.length := by omega
-    simp only [pyrt, Val.ptSeq, List.map_cons, List.length_cons, Nat.cast_add, Nat.cast_one,
-      ptObj, hn, List.length_map]
-    cases rest with
-    | nil => simp [pointsInALine]
-    | cons r rest' =>
-      have h3 : ¬ (((r :: rest').length : Int) + 1 + 1 < 3) := by simp only [List.length_cons]; push_cast; omega
-      simp only [h3, decide_false, Bool.false_eq_true, if_false, pointsInALine]
-      by_cases h10 : p1 = p0
-      · simp [h10]
-      · simp only [h10, if_false, ok_bind, reduceCtorEq]
-        generalize r :: rest' = rest
-        rw [← map_snd_indexed rest 2]
-        rw [show ((none : Option Val), ()) = (fun r : Option Bool => (r.map Val.bool, ())) none from rfl]
-        rw [forIn_repr (fun xi : V3 × Int => Val.int xi.2) (fun r : Option Bool => (r.map Val.bool, ()))
-          (indexed 2 rest) _ (fun xi => allStep (⟨p0, sub p1 p0⟩ : Line).contains xi.1)]
-        rotate_left
-        · intro ⟨pi, i⟩ hmem st
-          obtain ⟨k, rfl, hk⟩ := mem_indexed rest 2 pi i hmem
-          have hidx : pyIndex (Val.seq (Obj.flat (Geo.point p0) :: Obj.flat (Geo.point p1) :: List.map ptObj rest)) (Val.int (2 + ↑k))
-              = .ok (.obj (.flat (.point pi))) := by
-            have := pyIndex_seq_nat (Obj.flat (Geo.point p0) :: Obj.flat (Geo.point p1) :: List.map ptObj rest) (k + 2)
-              (.flat (.point pi)) (by simp [hk, ptObj])
-            rw [← this]; congr 2; push_cast; omega
-          simp only [hidx, pyrt, allStep]
-          cases (⟨p0, sub p1 p0⟩ : Line).contains pi <;> simp [pyrt, ForInStep.map']
-        rw [forIn_indexed, forIn_allStep]
-        cases rest.all (⟨p0, sub p1 p0⟩ : Line).contains <;> simp
-
-/-! ### the three `get_*_intersection_point_set` helpers -/
-
-/-- one round of a face loop `inter = face.intersection(x); None/Segment: continue; Point: add; else Bug` -/
-theorem faceBody_eq (r : ResB) (acc : List V3) :
-    (do let inter ← Val.ofRes r
-        if (pyIsNone inter).truthy = true then Except.ok (ForInStep.yield (Val.ptSet acc))
-        else if (pyIsInstance inter PyTy.Segment).truthy = true then Except.ok (ForInStep.yield (Val.ptSet acc))
-        else if (pyIsInstance inter PyTy.Point).truthy = true then do
-          let point_set ← pySetAdd (Val.ptSet acc) inter
-          Except.ok (ForInStep.yield point_set)
-        else do
-          throw BErr.bug
-          Except.ok (ForInStep.yield (Val.ptSet acc))) =
-      ForInStep.map' Val.ptSet <$> (match r with
-        | .ok none => .ok (.yield acc)
-        | .ok (some (.flat (.seg _))) => .ok (.yield acc)
-        | .ok (some (.flat (.point q))) => .ok (.yield (addNew acc q))
-        | .ok _ => .error .bug
-        | .error e => .error e) := by
-  rcases r with e | o
-  · simp [pyrt]
-  · rcases o with _ | ⟨g | P | B'⟩
-    · simp [pyrt, ForInStep.map']
-    · cases g <;> simp [pyrt, ForInStep.map', Val.ptSet]
-    · simp [pyrt, ForInStep.map']
-    · simp [pyrt, ForInStep.map']
-
-/-- one round of an edge loop; the model maps every exception of the inner flat call to "Bug detected" -/
-theorem edgeBody_eq (r : Res) (hr : OnlyBug r) (acc : List V3) :
-    (do let inter ← Val.ofRes (liftFlat r)
-        if (pyIsNone inter).truthy = true then Except.ok (ForInStep.yield (Val.ptSet acc))
-        else if (pyIsInstance inter PyTy.Segment).truthy = true then Except.ok (ForInStep.yield (Val.ptSet acc))
-        else if (pyIsInstance inter PyTy.Point).truthy = true then do
-          let point_set ← pySetAdd (Val.ptSet acc) inter
-          Except.ok (ForInStep.yield point_set)
-        else do
-          throw BErr.bug
-          Except.ok (ForInStep.yield (Val.ptSet acc))) =
-      ForInStep.map' Val.ptSet <$> (match (generalizing := false) r with
-        | .ok none => .ok (.yield acc)
-        | .ok (some (.seg _)) => .ok (.yield acc)
-        | .ok (some (.point q)) => .ok (.yield (addNew acc q))
-        | _ => .error .bug) := by
-  rcases r with e | o
-  · cases hr e rfl; simp [pyrt]
-  · rcases o with _ | g
-    · simp [pyrt, ForInStep.map']
-    · cases g <;> simp [pyrt, ForInStep.map', Val.ptSet]
-
-theorem h_get_segment_convexpolygon_intersection_point_set_eq (s : Seg) (P : Polygon) :
-    h_get_segment_convexpolygon_intersection_point_set (.obj (.flat (.seg s))) (.obj (.polygon P)) =
-      (do let ss ← liftC P.segments?
-          Val.ptSet <$> edgeHits (fun t => interSegSeg t s) ss []) := by
-  unfold h_get_segment_convexpolygon_intersection_point_set
-  simp only [pyrt, pyMeth_segments]
-  cases liftC P.segments? with
-  | error e => simp
-  | ok ss =>
-    simp only [pyrt, List.map_map]
-    rw [show (Val.set []) = Val.ptSet [] from rfl]
-    rw [forIn_repr (Val.obj ∘ sgObj) Val.ptSet ss _ (edgeStep (fun t => interSegSeg t s))]
-    · simp [← edgeHits_eq_forIn]
-    · intro t _ acc
-      simp only [Function.comp, sgObj, pyrt, edgeStep]
-      exact edgeBody_eq _ (interSegSeg_onlyBug t s) acc
-
-theorem h_get_segment_convexpolyhedron_intersection_point_set_eq (s : Seg) (B : Polyhedron) :
-    h_get_segment_convexpolyhedron_intersection_point_set (.obj (.flat (.seg s))) (.obj (.polyhedron B)) =
-      Val.ptSet <$> segPolyhedronPointSet s B := by
-  unfold h_get_segment_convexpolyhedron_intersection_point_set
-  simp only [pyrt, List.map_map]
-  rw [show (Val.set []) = Val.ptSet [] from rfl]
-  rw [forIn_repr (Val.obj ∘ Obj.polygon) Val.ptSet B.faces _ (faceStep (fun f => interSegPolygon s f))]
-  rotate_left
-  · intro f _ acc
-    simp only [Function.comp, pyrt, faceStep]
-    exact faceBody_eq _ acc
-  simp only [segPolyhedronPointSet, boundaryHits, ← faceHits_eq_forIn]
-  cases faceHits (fun f => interSegPolygon s f) B.faces [] with
-  | error e => simp
-  | ok acc =>
-    simp only [pyrt]
-    rw [forIn_repr (Val.obj ∘ sgObj) Val.ptSet B.edges _ (edgeStep (fun t => interSegSeg t s))]
-    · simp [← edgeHits_eq_forIn]
-    · intro t _ acc
-      simp only [Function.comp, sgObj, pyrt, edgeStep]
-      exact edgeBody_eq _ (interSegSeg_onlyBug t s) acc
-
-theorem h_get_halfline_convexpolyhedron_intersection_point_set_eq (h : HalfLine) (B : Polyhedron) :
-    h_get_halfline_convexpolyhedron_intersection_point_set (.obj (.flat (.halfline h))) (.obj (.polyhedron B)) =
-      Val.ptSet <$> boundaryHits (fun f => interPolygonHalfLine f h) (fun s => interSegHalfLine s h) B := by
-  unfold h_get_halfline_convexpolyhedron_intersection_point_set
-  simp only [pyrt, List.map_map]
-  rw [show (Val.set []) = Val.ptSet [] from rfl]
-  rw [forIn_repr (Val.obj ∘ Obj.polygon) Val.ptSet B.faces _ (faceStep (fun f => interPolygonHalfLine f h))]
-  rotate_left
-  · intro f _ acc
-    simp only [Function.comp, pyrt, faceStep]
-    exact faceBody_eq _ acc
-  simp only [boundaryHits, ← faceHits_eq_forIn]
-  cases faceHits (fun f => interPolygonHalfLine f h) B.faces [] with
-  | error e => simp
-  | ok acc =>
-    simp only [pyrt]
-    rw [forIn_repr (Val.obj ∘ sgObj) Val.ptSet B.edges _ (edgeStep (fun t => interSegHalfLine t h))]
-    · simp [← edgeHits_eq_forIn]
-    · intro t _ acc
-      simp only [Function.comp, sgObj, pyrt, edgeStep]
-      exact edgeBody_eq _ (interSegHalfLine_onlyBug t h) acc
-
-/-! ## flat × ConvexPolyhedron -/
-
-/-! ### `inter_line_convexpolyhedron` -/
-
-/-- representation of a loop state "early-return slot × collected point set" -/
-def reprRP (st : Option Obj × List V3) : Option Val × Val := (st.1.map Val.obj, Val.ptSet st.2)
-
-def lineFaceStep (l : Line) (f : Polygon) (st : Option Obj × List V3) : PyM (ForInStep (Option Obj × List V3)) :=
-  match interLinePolygon l f with
-  | .ok (some (.flat (.seg s))) => .ok (.done (some (.flat (.seg s)), st.2))
-  | .ok (some (.flat (.point q))) => .ok (.yield (none, addNew st.2 q))
-  | .ok none => .ok (.yield (none, st.2))
-  | .ok _ => .error .bug
-  | .error e => .error e
-
-theorem interLinePolyhedron_loop_eq (l : Line) (fs : List Polygon) (acc : List V3) :
-    interLinePolyhedron.loop l fs acc =
-      (do let st ← forIn fs ((none : Option Obj), acc) (lineFaceStep l)
-          match st.1 with
-          | some o => .ok (some o)
-          | none => match st.2 with
-            | [] => .ok none
-            | [p] => pt? p
-            | ps => do let s ← segmentFromPointList ps; seg? s) := by
-  induction fs generalizing acc with
-  | nil =>
-    simp only [interLinePolyhedron.loop, List.forIn_nil, pyrt]
-    rcases acc with _ | ⟨p, _ | ⟨q, r⟩⟩ <;> rfl
-  | cons f fs ih =>
-    simp only [List.forIn_cons, interLinePolyhedron.loop, lineFaceStep]
-    split <;> simp [ih, seg?, *]
-
-theorem h_inter_line_convexpolyhedron_eq (l : Line) (B : Polyhedron) :
-    h_inter_line_convexpolyhedron (.obj (.flat (.line l))) (.obj (.polyhedron B)) = Val.ofRes (interLinePolyhedron l B) := by
-  unfold h_inter_line_convexpolyhedron
-  simp only [pyrt, List.map_map]
-  rw [show ((none : Option Val), Val.set []) = reprRP (none, []) from rfl]
-  rw [forIn_repr (Val.obj ∘ Obj.polygon) reprRP B.faces _ (lineFaceStep l)]
-  rotate_left
-  · intro f _ st
-    simp only [Function.comp, pyrt, lineFaceStep, reprRP]
-    rcases interLinePolygon l f with e | o
-    · simp [pyrt]
-    · rcases o with _ | ⟨g | P | B'⟩
-      · simp [pyrt, ForInStep.map', reprRP]
-      · cases g <;> simp [pyrt, ForInStep.map', Val.ptSet, reprRP]
-      · simp [pyrt, ForInStep.map']
-      · simp [pyrt, ForInStep.map']
-  simp only [interLinePolyhedron, interLinePolyhedron_loop_eq]
-  cases forIn B.faces ((none : Option Obj), ([] : List V3)) (lineFaceStep l) with
-  | error e => simp [pyrt]
-  | ok st =>
-    obtain ⟨r, acc⟩ := st
-    cases r with
-    | some o => simp [pyrt, reprRP]
-    | none =>
-      simp only [pyrt, reprRP, Option.map_none, Val.ptSet, List.length_map]
-      match acc with
-      | [] => simp [pyrt]
-      | [p] => simp [pyrt, ptObj, pt?]
-      | p :: q :: rest =>
-        have := h_get_segment_from_point_list_eq (p :: q :: rest)
-        simp only [Val.ptSeq, List.map_cons] at this
-        have h0 : ¬ ((rest.length : Int) + 1 + 1 = 0) := by omega
-        have h1 : ¬ ((rest.length : Int) + 1 = 0) := by omega
-        have h2 : (2 : Int) ≤ (rest.length : Int) + 1 + 1 := by omega
-        simp [pyrt, seg?, h0, h1, h2, this]
-        cases segmentFromPointList (p :: q :: rest) <;> simp [pyrt]
-
-/-! ### `inter_plane_convexpolyhedron` -/
-
-def findStep {α : Type} (c : α → Bool) (x : α) (_ : Option α) : PyM (ForInStep (Option α)) :=
-  if c x then .ok (.done (some x)) else .ok (.yield none)
-
-theorem forIn_findStep {α : Type} (c : α → Bool) (xs : List α) :
-    forIn xs none (findStep c) = .ok (xs.find? c) := by
-  induction xs with
-  | nil => simp
-  | cons x xs ih =>
-    simp only [List.forIn_cons, findStep, List.find?_cons]
-    by_cases h : c x = true
-    · simp [h]
-    · have h' : c x = false := by simpa using h
-      simp [h', ih]
-
-theorem interPlanePolyhedron_loop_eq (a : Plane) (ss : List Seg) (acc : List V3) :
-    interPlanePolyhedron.loop a ss acc = edgeHits (fun s => interPlaneSeg a s) ss acc := by
-  induction ss generalizing acc with
-  | nil => rfl
-  | cons s ss ih =>
-    simp only [interPlanePolyhedron.loop, edgeHits]
-    split <;> simp_all
-
-theorem h_inter_plane_convexpolyhedron_eq (a : Plane) (B : Polyhedron) :
-    h_inter_plane_convexpolyhedron (.obj (.flat (.plane a))) (.obj (.polyhedron B)) = Val.ofRes (interPlanePolyhedron a B) := by
-  unfold h_inter_plane_convexpolyhedron
-  simp only [pyrt, List.map_map]
-  rw [show ((none : Option Val), ()) = (fun r : Option Polygon => (r.map (Val.obj ∘ Obj.polygon), ())) none from rfl]
-  rw [forIn_repr (Val.obj ∘ Obj.polygon) (fun r : Option Polygon => (r.map (Val.obj ∘ Obj.polygon), ())) B.faces _
-    (findStep (fun f => f.inPlane a))]
-  rotate_left
-  · intro f _ st
-    simp only [Function.comp, pyrt, findStep]
-    by_cases hc : f.inPlane a = true
-    · simp [hc, ForInStep.map']
-    · simp [hc, ForInStep.map']
-  rw [forIn_findStep]
-  simp only [interPlanePolyhedron, pyrt]
-  cases B.faces.find? (fun f => f.inPlane a) with
-  | some f => simp [pyrt]
-  | none =>
-    simp only [Option.map_none, interPlanePolyhedron_loop_eq]
-    rw [show (Val.set []) = Val.ptSet [] from rfl]
-    rw [forIn_repr (Val.obj ∘ sgObj) Val.ptSet B.edges _ (edgeStep (fun s => interPlaneSeg a s))]
-    rotate_left
-    · intro t _ acc
-      simp only [Function.comp, sgObj, pyrt, edgeStep]
-      exact edgeBody_eq _ (interPlaneSeg_onlyBug a t) acc
-    rw [← edgeHits_eq_forIn]
-    cases edgeHits (fun s => interPlaneSeg a s) B.edges [] with
-    | error e => simp [pyrt]
-    | ok acc =>
-      simp only [pyrt, Val.ptSet, List.length_map]
-      match acc with
-      | [] => simp [pyrt]
-      | [p] => simp [pyrt, ptObj, pt?]
-      | [p, q] =>
-        simp [pyrt, ptObj, seg?, liftC]
-        by_cases hpq : p = q <;> simp [hpq, pyrt]
-      | p :: q :: r :: rest =>
-        have h0 : ¬ ((rest.length : Int) + 1 + 1 + 1 = 0) := by omega
-        have h1 : ¬ ((rest.length : Int) + 1 + 1 = 0) := by omega
-        have h2 : ¬ ((rest.length : Int) + 1 + 1 + 1 = 2) := by omega
-        simp [pyrt, h0, h1, h2]
-        cases liftC (Polygon.mk? (p :: q :: r :: rest)) <;> simp [pyrt]
-
-/-! ### `inter_segment_convexpolyhedron`, `inter_convexpolyhedron_halfline` -/
-
-/-- the common tail `l = list(point_set); len(l) == 0 → None; == 1 → l[0]; == 2 → Segment(l[0], l[1]); else Bug` -/
-theorem pointTail_eq (acc : List V3) :
-    (do let inter_point_list ← pyList (Val.ptSet acc)
-        if (← pyEq (← pyLen inter_point_list) (Val.int 0)).truthy then
-          Except.ok Val.none
-        else if (← pyEq (← pyLen inter_point_list) (Val.int 1)).truthy then
-          pyIndex inter_point_list (Val.int 0)
-        else if (← pyEq (← pyLen inter_point_list) (Val.int 2)).truthy then
-          pySegment (← pyIndex inter_point_list (Val.int 0)) (← pyIndex inter_point_list (Val.int 1))
-        else
-          Except.error BErr.bug) = Val.ofRes (ofPoints acc) := by
-  rw [ofPoints_cases]
-  match acc with
-  | [] => simp [pyrt, Val.ptSet]
-  | [p] => simp [pyrt, Val.ptSet, ptObj]
-  | [p, q] => simp [pyrt, Val.ptSet, ptObj]
-  | p :: q :: r :: rest =>
-    have h0 : ¬ ((rest.length : Int) + 1 + 1 + 1 = 0) := by omega
-    have h1 : ¬ ((rest.length : Int) + 1 + 1 = 0) := by omega
-    have h2 : ¬ ((rest.length : Int) + 1 + 1 + 1 = 2) := by omega
-    simp [pyrt, Val.ptSet, h0, h1, h2]
-
-theorem h_inter_segment_convexpolyhedron_eq (s : Seg) (B : Polyhedron) :
-    h_inter_segment_convexpolyhedron (.obj (.flat (.seg s))) (.obj (.polyhedron B)) = Val.ofRes (interSegPolyhedron s B) := by
-  unfold h_inter_segment_convexpolyhedron
-  simp only [pyrt, h_get_segment_convexpolyhedron_intersection_point_set_eq, interSegPolyhedron]
-  by_cases ha : B.contains s.a = true <;> by_cases hb : B.contains s.b = true
-  · simp [ha, hb, pyrt, seg?]
-  all_goals
-    simp only [ha, hb, pyrt, if_true, if_false, Bool.not_true, Bool.not_false, Bool.and_true, Bool.and_false,
-      Bool.true_and, Bool.false_and, Bool.false_eq_true, Bool.not_eq_true]
-    cases segPolyhedronPointSet s B with
-    | error e => simp [pyrt]
-    | ok acc =>
-      simp only [pyrt, Val.ptSet]
-      exact pointTail_eq _
-
-theorem h_inter_convexpolyhedron_halfline_eq (B : Polyhedron) (h : HalfLine) :
-    h_inter_convexpolyhedron_halfline (.obj (.polyhedron B)) (.obj (.flat (.halfline h))) =
-      Val.ofRes (interPolyhedronHalfLine B h) := by
-  unfold h_inter_convexpolyhedron_halfline
-  simp only [pyrt, h_get_halfline_convexpolyhedron_intersection_point_set_eq, interPolyhedronHalfLine]
-  cases boundaryHits (fun f => interPolygonHalfLine f h) (fun s => interSegHalfLine s h) B with
-  | error e => simp [pyrt]
-  | ok acc =>
-    by_cases hp : B.contains h.p = true
-    · simp only [hp, pyrt, Val.ptSet, if_true]
-      exact pointTail_eq _
-    · simp only [hp, pyrt, Val.ptSet, if_false, Bool.false_eq_true]
-      exact pointTail_eq _
-
-/-! ## ConvexPolygon / ConvexPolyhedron × ConvexPolyhedron -/
-
-/-! ### `inter_convexpolygon_convexPolyhedron` -/
-theorem h_inter_convexpolygon_convexPolyhedron_eq (B : Polyhedron) (P : Polygon) :
-    h_inter_convexpolygon_convexPolyhedron (.obj (.polyhedron B)) (.obj (.polygon P)) =
-      Val.ofRes (interPolygonPolyhedron B P) := by
-  unfold h_inter_convexpolygon_convexPolyhedron
-  simp only [pyrt, interPolygonPolyhedron]
-  rcases interPlanePolyhedron P.plane B with e | o
-  · simp [pyrt]
-  · rcases o with _ | ⟨g | Q | B'⟩
-    · simp [pyrt]
-    · cases g <;> simp [pyrt]
-    · simp [pyrt]
-    · simp [pyrt]
-
-/-! ### `inter_convexpolyhedron_convexpolyhedron` -/
-
-def reprParts (p : Parts) : Val × Val × Val := (.set (p.gons.map Obj.polygon), .set (p.segs.map sgObj), Val.ptSet p.pts)
-
-def clipStep (X : Polyhedron) (f : Polygon) (acc : Parts) : PyM (ForInStep Parts) :=
-  match interPolygonPolyhedron X f with
-  | .ok none => .ok (.yield acc)
-  | .ok (some (.flat (.point q))) => .ok (.yield { acc with pts := addNew acc.pts q })
-  | .ok (some (.flat (.seg s))) => .ok (.yield { acc with segs := addSeg acc.segs s })
-  | .ok (some (.polygon Q)) => .ok (.yield { acc with gons := addPolygon acc.gons Q })
-  | .ok _ => .ok (.yield acc)
-  | .error e => .error e
-
-theorem clipFaces_eq_forIn (X : Polyhedron) (fs : List Polygon) (acc : Parts) :
-    clipFaces X fs acc = forIn fs acc (clipStep X) := by
-  induction fs generalizing acc with
-  | nil => simp [clipFaces]
-  | cons f fs ih =>
-    simp only [List.forIn_cons, clipFaces, clipStep]
-    split <;> simp [ih, *]
-
-theorem clipBody_eq (X : Polyhedron) (f : Polygon) (acc : Parts) :
-    (do let inter ← Val.ofRes (interPolygonPolyhedron X f)
-        if (pyIsNone inter).truthy = true then
-          Except.ok (ForInStep.yield ((reprParts acc).1, (reprParts acc).2.1, (reprParts acc).2.2))
-        else if (pyIsInstance inter PyTy.Point).truthy = true then
-          (fun a => ForInStep.yield ((reprParts acc).1, (reprParts acc).2.1, a)) <$> pySetAdd (reprParts acc).2.2 inter
-        else if (pyIsInstance inter PyTy.Segment).truthy = true then
-          (fun a => ForInStep.yield ((reprParts acc).1, a, (reprParts acc).2.2)) <$> pySetAdd (reprParts acc).2.1 inter
-        else if (pyIsInstance inter PyTy.ConvexPolygon).truthy = true then
-          (fun a => ForInStep.yield (a, (reprParts acc).2.1, (reprParts acc).2.2)) <$> pySetAdd (reprParts acc).1 inter
-        else Except.ok (ForInStep.yield ((reprParts acc).1, (reprParts acc).2.1, (reprParts acc).2.2))) =
-      ForInStep.map' reprParts <$> clipStep X f acc := by
-  unfold clipStep
-  rcases interPolygonPolyhedron X f with e | o
-  · simp [pyrt]
-  · rcases o with _ | ⟨g | Q | B'⟩
-    · simp [pyrt, ForInStep.map', reprParts]
-    · cases g <;> simp [pyrt, ForInStep.map', reprParts, Val.ptSet]
-    · simp [pyrt, ForInStep.map', reprParts]
-    · simp [pyrt, ForInStep.map', reprParts]
-
-theorem h_inter_convexpolyhedron_convexpolyhedron_eq (A B : Polyhedron) :
-    h_inter_convexpolyhedron_convexpolyhedron (.obj (.polyhedron A)) (.obj (.polyhedron B)) =
-      Val.ofRes (interPolyhedronPolyhedron A B) := by
-  unfold h_inter_convexpolyhedron_convexpolyhedron
-  simp only [pyrt, List.map_map, decide_true, if_true, Bool.not_true, Bool.false_eq_true, if_false]
-  rw [show (Val.set [], Val.set [], Val.set []) = reprParts {} from rfl]
-  rw [forIn_repr (Val.obj ∘ Obj.polygon) reprParts A.faces _ (clipStep B)]
-  rotate_left
-  · intro f _ acc
-    simp only [Function.comp, h_inter_convexpolygon_convexPolyhedron_eq]
-    exact clipBody_eq B f acc
-  simp only [interPolyhedronPolyhedron, ← clipFaces_eq_forIn]
-  cases clipFaces B A.faces {} with
-  | error e => simp [pyrt]
-  | ok p1 =>
-    simp only [pyrt]
-    rw [show ((reprParts p1).1, (reprParts p1).2.1, (reprParts p1).2.2) = reprParts p1 from rfl]
-    rw [forIn_repr (Val.obj ∘ Obj.polygon) reprParts B.faces _ (clipStep A)]
-    rotate_left
-    · intro f _ acc
-      simp only [Function.comp, h_inter_convexpolygon_convexPolyhedron_eq]
-      exact clipBody_eq A f acc
-    simp only [← clipFaces_eq_forIn]
-    cases clipFaces A B.faces p1 with
-    | error e => simp [pyrt]
-    | ok p2 =>
-      obtain ⟨gons, segs, pts⟩ := p2
-      simp only [pyrt, reprParts, Val.ptSet, List.length_map]
-      rcases gons with _ | ⟨g1, _ | ⟨g2, gs⟩⟩
-      · rcases segs with _ | ⟨s1, _ | ⟨s2, ss⟩⟩
-        · rcases pts with _ | ⟨p1, _ | ⟨p2, ps⟩⟩
-          · simp [pyrt]
-          · simp [pyrt, pt?, ptObj]
-          · have : (1 : Int) < (ps.length : Int) + 1 + 1 := by omega
-            simp [pyrt, this]
-        · simp [pyrt, seg?, sgObj]
-        · have : (1 : Int) < (ss.length : Int) + 1 + 1 := by omega
-          simp [pyrt, this]
-      · simp [pyrt]
-      · have : (1 : Int) < (gs.length : Int) + 1 + 1 := by omega
-        simp only [List.length_cons, Nat.cast_add, Nat.cast_one, this, decide_true, if_true]
-        cases liftC (Polyhedron.mk? (g1 :: g2 :: gs)) <;> simp [pyrt]
-
-/-! ## ConvexPolygon × ConvexPolygon -/
-
-theorem liftFlat_flat (r : Res) (o : Obj) (h : liftFlat r = .ok (some o)) : ∃ g, o = .flat g := by
-  rcases r with e | _ | g
-  · cases e <;> cases h
-  · cases h
-  · cases h; exact ⟨g, rfl⟩
-
-theorem lineEdgesLoop_flat (l : Line) (ss : List Seg) (acc : List V3) (o : Obj)
-    (h : lineEdgesLoop l ss acc = .ok (some o)) : ∃ g, o = .flat g := by
-  induction ss generalizing acc with
-  | nil => exact liftFlat_flat _ o h
-  | cons s ss ih =>
-    simp only [lineEdgesLoop] at h
-    split at h
-    · exact ih _ h
-    · exact ih _ h
-    · cases h; exact ⟨_, rfl⟩
-    · cases h
-    · cases h
-
-theorem interLinePolygon_flat (l : Line) (P : Polygon) (o : Obj) (h : interLinePolygon l P = .ok (some o)) :
-    ∃ g, o = .flat g := by
-  unfold interLinePolygon at h
-  split at h
-  · cases h
-  · rcases hs : liftC P.segments? with e | ss
-    · rw [hs] at h; cases h
-    · rw [hs] at h; exact lineEdgesLoop_flat l ss [] o h
-  · simp only [interPointPolygon] at h
-    split at h
-    · cases h; exact ⟨_, rfl⟩
-    · cases h
-  · cases h
-
-theorem interPlanePlane_kind (a b : Plane) (g : Geo) (h : interPlanePlane a b = .ok (some g)) :
-    (∃ L, g = .line L) ∨ (∃ c, g = .plane c) := by
-  unfold interPlanePlane at h
-  split at h
-  · cases h; exact Or.inr ⟨_, rfl⟩
-  · split at h
-    · cases h
-    · simp only at h
-      split at h
-      · cases h; exact Or.inl ⟨_, rfl⟩
-      · cases h
-
-def filterStep (c : V3 → Bool) (p : V3) (acc : List V3) : PyM (ForInStep (List V3)) :=
-  .ok (.yield (if c p then addNew acc p else acc))
-
-theorem forIn_filterStep (c : V3 → Bool) (ps acc : List V3) :
-    forIn ps acc (filterStep c) = .ok ((ps.filter c).foldl addNew acc) := by
-  induction ps generalizing acc with
-  | nil => simp
-  | cons p ps ih =>
-    simp only [List.forIn_cons, filterStep, ok_bind, ih, List.filter_cons]
-    by_cases h : c p = true
-    · simp [h]
-    · simp [h]
-
-theorem mem_foldl_addNew_of_mem_acc (q : V3) (l acc : List V3) (h : q ∈ acc) : q ∈ l.foldl addNew acc := by
-  induction l generalizing acc with
-  | nil => exact h
-  | cons y ys ih =>
-    simp only [List.foldl_cons]
-    apply ih
-    unfold addNew; split
-    · exact h
-    · exact List.mem_append_left _ h
-
-theorem mem_foldl_addNew_of_mem (q : V3) (l acc : List V3) (h : q ∈ l) : q ∈ l.foldl addNew acc := by
-  induction l generalizing acc with
-  | nil => cases h
-  | cons x xs ih =>
-    simp only [List.foldl_cons]
-    rcases List.mem_cons.mp h with rfl | hq'
-    · apply mem_foldl_addNew_of_mem_acc
-      unfold addNew; split
-      · assumption
-      · simp
-    · exact ih _ hq'
-
-theorem addNew_foldl_addNew (tmp acc : List V3) (q : V3) :
-    (addNew tmp q).foldl addNew acc = addNew (tmp.foldl addNew acc) q := by
-  by_cases h : q ∈ tmp
-  · have h1 : addNew tmp q = tmp := by simp [addNew, h]
-    have h2 : addNew (tmp.foldl addNew acc) q = tmp.foldl addNew acc := by
-      simp [addNew, mem_foldl_addNew_of_mem q tmp acc h]
-    rw [h1, h2]
-  · have h1 : addNew tmp q = tmp ++ [q] := by simp [addNew, h]
-    rw [h1, List.foldl_append]; rfl
-
-theorem edgeHits_acc (edgePt : Seg → Res) (ss : List Seg) (tmp acc : List V3) :
-    (fun hits => hits.foldl addNew acc) <$> edgeHits edgePt ss tmp = edgeHits edgePt ss (tmp.foldl addNew acc) := by
-  induction ss generalizing tmp with
-  | nil => simp [edgeHits]
-  | cons s ss ih =>
-    simp only [edgeHits]
-    split <;> first | exact ih tmp | (rw [ih, addNew_foldl_addNew]) | simp
-
-def crossStep (sb : List Seg) (s : Seg) (acc : List V3) : PyM (ForInStep (List V3)) :=
-  ForInStep.yield <$> crossHitsOne sb s acc
-
-theorem crossHits_eq_forIn (sb sa : List Seg) (acc : List V3) :
-    crossHits sb sa acc = forIn sa acc (crossStep sb) := by
-  induction sa generalizing acc with
-  | nil => simp [crossHits]
-  | cons s sa ih =>
-    simp only [List.forIn_cons, crossHits, crossStep]
-    cases crossHitsOne sb s acc with
-    | error e => simp
-    | ok acc' => simp [ih]
-
-theorem mapM_except_length {ε α β : Type} (f : α → Except ε β) (l : List α) (r : List β)
-    (h : l.mapM f = .ok r) : r.length = l.length := by
-  induction l generalizing r with
-  | nil => simp [List.mapM_nil, pure, Except.pure] at h; subst h; rfl
-  | cons x xs ih =>
-    simp only [List.mapM_cons, bind, Except.bind] at h
-    split at h
-    · cases h
-    · rename_i y hy
-      split at h
-      · cases h
-      · rename_i ys hys
-        simp only [pure, Except.pure] at h
-        cases h
-        simp [ih ys hys]
-
-theorem segments_ne_nil (P : Polygon) (hP : P.pts ≠ []) (ss : List Seg) (h : liftC P.segments? = .ok ss) : ss ≠ [] := by
-  intro hss; subst hss
-  unfold Polygon.segments? at h
-  rcases hm : (closedPairs P.pts).mapM (fun e => if e.1 = e.2 then Except.error CErr.value else Except.ok (Seg.mk' e.1 e.2)) with e | r
-  · rw [hm] at h; cases h
-  · rw [hm] at h
-    have hr : r = [] := by cases h; rfl
-    have hlen := mapM_except_length _ _ _ hm
-    rw [hr] at hlen
-    rcases hp : P.pts with _ | ⟨p, ps⟩
-    · exact hP hp
-    · rw [hp] at hlen
-      cases ps <;> simp [closedPairs, consec] at hlen
-
-/-- `inter_convexpolygon_convexpolygon`.  The hand model and the code differ in two corner cases that the two
-    hypotheses exclude (both are impossible for polygons that the constructor built, see the corollary):
-    * `hA`: with an empty vertex tuple `a.points` the code never calls `b.segments()`, the model does;
-    * `hNE`: when the planes cross in a line `L`, `L ∩ a` is `None` and `L ∩ b` *raises*, the code raises
-      (both inner intersections are computed before the `None` test) while the model returns `None`. -/
-theorem h_inter_convexpolygon_convexpolygon_eq (a b : Polygon) (hA : a.pts ≠ [])
-    (hNE : ∀ L, interPlanePlane a.plane b.plane = .ok (some (.line L)) → interLinePolygon L a = .ok none →
-      ∀ e, interLinePolygon L b ≠ .error e) :
-    h_inter_convexpolygon_convexpolygon (.obj (.polygon a)) (.obj (.polygon b)) =
-      Val.ofRes (interPolygonPolygon a b) := by
-  unfold h_inter_convexpolygon_convexpolygon
-  simp only [pyrt, List.map_map, interPolygonPolygon]
-  rcases hpp : interPlanePlane a.plane b.plane with e | o
-  · cases interPlanePlane_onlyBug _ _ e hpp; simp [pyrt]
-  rcases o with _ | g
-  · simp [pyrt]
-  rcases interPlanePlane_kind _ _ g hpp with ⟨L, rfl⟩ | ⟨c, rfl⟩
-  · -- the planes cross in the line L
-    simp only [pyrt, decide_true, if_true, reduceCtorEq, decide_false, Bool.false_eq_true, if_false]
-    rcases h1 : interLinePolygon L a with e1 | o1
-    · simp [pyrt]
-    rcases h2 : interLinePolygon L b with e2 | o2
-    · rcases o1 with _ | x1
-      · exact absurd h2 (hNE L hpp h1 e2)
-      · simp [pyrt]
-    rcases o1 with _ | x1
-    · simp [pyrt]
-    rcases o2 with _ | x2
-    · simp [pyrt]
-    obtain ⟨g1, rfl⟩ := interLinePolygon_flat L a x1 h1
-    obtain ⟨g2, rfl⟩ := interLinePolygon_flat L b x2 h2
-    simp [pyrt, interFlatPair]
-  · -- coplanar
-    simp only [pyrt, decide_true, if_true, reduceCtorEq, decide_false, Bool.false_eq_true, if_false]
-    by_cases heq : a.plane.eqv b.plane = true
-    swap
-    · simp [heq, pyrt]
-    simp only [heq, Bool.not_true, Bool.false_eq_true, if_false]
-    rw [show (Val.set []) = Val.ptSet [] from rfl]
-    rw [forIn_repr (Val.obj ∘ ptObj) Val.ptSet a.pts _ (filterStep b.contains)]
-    rotate_left
-    · intro p _ acc
-      simp only [Function.comp, ptObj, pyrt, filterStep]
-      by_cases hc : b.contains p = true <;> simp [hc, pyrt, ForInStep.map', Val.ptSet]
-    rw [forIn_filterStep]
-    simp only [pyrt]
-    rw [forIn_repr (Val.obj ∘ ptObj) Val.ptSet b.pts _ (filterStep a.contains)]
-    rotate_left
-    · intro p _ acc
-      simp only [Function.comp, ptObj, pyrt, filterStep]
-      by_cases hc : a.contains p = true <;> simp [hc, pyrt, ForInStep.map', Val.ptSet]
-    rw [forIn_filterStep]
-    simp only [pyrt, pyMeth_segments]
-    generalize List.foldl addNew (List.foldl addNew [] (List.filter b.contains a.pts)) (List.filter a.contains b.pts) = acc0
-    rcases hsa : liftC a.segments? with e | sa
-    · simp [pyrt]
-    simp only [pyrt, List.map_map]
-    rcases hsb : liftC b.segments? with e | sb
-    · -- `b.segments()` raises: in the code at the first round of the loop over `a.segments()`
-      have hne := segments_ne_nil a hA sa hsa
-      rcases sa with _ | ⟨s0, sa'⟩
-      · exact absurd rfl hne
-      · simp [List.forIn_cons, sgObj, h_get_segment_convexpolygon_intersection_point_set_eq, hsb, pyrt]
-    simp only [pyrt]
-    rw [forIn_repr (Val.obj ∘ sgObj) Val.ptSet sa _ (crossStep sb)]
-    rotate_left
-    · intro s _ acc
-      simp only [Function.comp, sgObj, h_get_segment_convexpolygon_intersection_point_set_eq, hsb, pyrt,
-        crossStep, crossHitsOne]
-      have hacc := edgeHits_acc (fun t => interSegSeg t s) sb [] acc
-      simp only [List.foldl_nil] at hacc
-      rw [← hacc]
-      cases edgeHits (fun t => interSegSeg t s) sb [] with
-      | error e => simp
-      | ok hits => simp [pyrt, Val.ptSet, ForInStep.map']
-    rw [← crossHits_eq_forIn]
-    cases crossHits sb sa acc0 with
-    | error e => simp [pyrt]
-    | ok acc =>
-      simp only [pyrt, Val.ptSet, List.length_map]
-      match acc with
-      | [] => simp [pyrt]
-      | [p] => simp [pyrt, ptObj, pt?]
-      | [p, q] =>
-        simp [pyrt, ptObj, seg?, liftC]
-        by_cases hpq : p = q <;> simp [hpq, pyrt]
-      | p :: q :: r :: rest =>
-        have h0 : ¬ ((rest.length : Int) + 1 + 1 + 1 = 0) := by omega
-        have h1 : ¬ ((rest.length : Int) + 1 + 1 = 0) := by omega
-        have h2 : ¬ ((rest.length : Int) + 1 + 1 + 1 = 2) := by omega
-        have hpl := h_points_in_a_line_eq (p :: q :: r :: rest)
-        simp only [Val.ptSeq, List.map_cons] at hpl
-        simp [pyrt, h0, h1, h2, hpl]
-        cases pointsInALine (p :: q :: r :: rest) with
-        | error e => simp [pyrt]
-        | ok bl =>
-          cases bl
-          · simp [pyrt]
-            cases liftC (Polygon.mk? (p :: q :: r :: rest)) <;> simp [pyrt]
-          · simp [pyrt]
-
-/-- for polygons that satisfy the constructor's guarantees the two side conditions hold -/
-theorem h_inter_convexpolygon_convexpolygon_eq_of_valid (a b : Polygon) (ha : a.Valid) (hb : b.Valid) :
-    h_inter_convexpolygon_convexpolygon (.obj (.polygon a)) (.obj (.polygon b)) =
-      Val.ofRes (interPolygonPolygon a b) := by
-  apply h_inter_convexpolygon_convexpolygon_eq
-  · obtain ⟨p0, p1, p2, rest, h, _⟩ := ha; rw [h]; simp
-  · intro L hL _ e he
-    obtain ⟨o, ho, hw, _⟩ := interPlanePlane_exact a.plane b.plane (Polygon.plane_WF a ha) (Polygon.plane_WF b hb)
-    rw [hL] at ho; cases ho
-    have hLW : L.WF := hw (.line L) rfl
-    obtain ⟨o', ho', _⟩ := interLinePolygon_exact L hLW b hb
-    rw [ho'] at he; cases he
-
-/-! ## flat × ConvexPolygon -/
-
-/-! ### `inter_line_convexpolygon` -/
-
-def lineEdgeStep (l : Line) (s : Seg) (st : Option Obj × List V3) : PyM (ForInStep (Option Obj × List V3)) :=
-  match interLineSeg l s with
-  | .ok none => .ok (.yield (none, st.2))
-  | .ok (some (.point q)) => .ok (.yield (none, addNew st.2 q))
-  | .ok (some (.seg r)) => .ok (.done (some (.flat (.seg r)), st.2))
-  | .ok _ => .error .bug
-  | .error _ => .error .bug
-
-theorem lineEdgesLoop_eq (l : Line) (ss : List Seg) (acc : List V3) :
-    lineEdgesLoop l ss acc =
-      (do let st ← forIn ss ((none : Option Obj), acc) (lineEdgeStep l)
-          match st.1 with
-          | some o => .ok (some o)
-          | none => ofPoints st.2) := by
-  induction ss generalizing acc with
-  | nil => simp [lineEdgesLoop]
-  | cons s ss ih =>
-    simp only [List.forIn_cons, lineEdgesLoop, lineEdgeStep]
-    split <;> simp [ih, seg?, *]
-
-theorem h_inter_line_convexpolygon_eq (l : Line) (P : Polygon) :
-    h_inter_line_convexpolygon (.obj (.flat (.line l))) (.obj (.polygon P)) =
-      Val.ofRes (interLinePolygon l P) := by
-  unfold h_inter_line_convexpolygon
-  simp only [pyrt, List.map_map, interLinePolygon]
-  rcases hlp : interLinePlane l P.plane with e | o
-  · exact absurd hlp (interLinePlane_ne_error _ _ e)
-  rcases o with _ | g
-  · simp [pyrt]
-  cases g with
-  | point q => simp [pyrt]
-  | plane c => simp [pyrt]
-  | seg c => simp [pyrt]
-  | halfline c => simp [pyrt]
-  | line L =>
-    simp only [pyrt, decide_true, if_true, pyMeth_segments]
-    rcases liftC P.segments? with e | ss
-    · simp [pyrt]
-    simp only [pyrt, List.map_map]
-    rw [show ((none : Option Val), Val.set []) = reprRP (none, []) from rfl]
-    rw [forIn_repr (Val.obj ∘ sgObj) reprRP ss _ (lineEdgeStep l)]
-    rotate_left
-    · intro s _ st
-      simp only [Function.comp, sgObj, pyrt, lineEdgeStep, reprRP]
-      rcases hls : interLineSeg l s with e | o
-      · cases interLineSeg_onlyBug l s e hls; simp [pyrt]
-      · rcases o with _ | g
-        · simp [pyrt, ForInStep.map', reprRP]
-        · cases g <;> simp [pyrt, ForInStep.map', Val.ptSet, reprRP]
-    rw [lineEdgesLoop_eq]
-    cases forIn ss ((none : Option Obj), ([] : List V3)) (lineEdgeStep l) with
-    | error e => simp [pyrt]
-    | ok st =>
-      obtain ⟨r, acc⟩ := st
-      cases r with
-      | some o => simp [pyrt, reprRP]
-      | none =>
-        simp only [pyrt, reprRP, Option.map_none, Val.ptSet, List.length_map, ofPoints_cases]
-        match acc with
-        | [] => simp [pyrt]
-        | [p] => simp [pyrt, ptObj]
-        | [p, q] => simp [pyrt, ptObj]
-        | p :: q :: r :: rest =>
-          have h0 : ¬ ((rest.length : Int) + 1 + 1 + 1 = 0) := by omega
-          have h1 : ¬ ((rest.length : Int) + 1 + 1 = 0) := by omega
-          have h2 : ¬ ((rest.length : Int) + 1 + 1 + 1 = 2) := by omega
-          simp [pyrt, h0, h1, h2]
-
-/-! ### `inter_plane_convexpolygon` -/
-theorem h_inter_plane_convexpolygon_eq (a : Plane) (P : Polygon) :
-    h_inter_plane_convexpolygon (.obj (.flat (.plane a))) (.obj (.polygon P)) =
-      Val.ofRes (interPlanePolygon a P) := by
-  unfold h_inter_plane_convexpolygon
-  simp only [pyrt, interPlanePolygon]
-  rcases hpp : interPlanePlane a P.plane with e | o
-  · cases interPlanePlane_onlyBug _ _ e hpp; simp [pyrt]
-  rcases o with _ | g
-  · simp [pyrt]
-  cases g <;> simp [pyrt]
-
-/-! ### `inter_segment_convexpolygon`, `inter_convexpolygon_halfline` -/
-theorem h_inter_segment_convexpolygon_eq (s : Seg) (P : Polygon) :
-    h_inter_segment_convexpolygon (.obj (.flat (.seg s))) (.obj (.polygon P)) =
-      Val.ofRes (interSegPolygon s P) := by
-  unfold h_inter_segment_convexpolygon
-  simp only [pyrt, interSegPolygon, interCarrierPolygon]
-  rcases hlp : interLinePlane s.line P.plane with e | o
-  · exact absurd hlp (interLinePlane_ne_error _ _ e)
-  rcases o with _ | g
-  · simp [pyrt]
-  cases g with
-  | point q =>
-    simp only [pyrt, decide_true, if_true, reduceCtorEq, decide_false, Bool.false_eq_true, if_false]
-    by_cases h1 : s.contains q = true <;> by_cases h2 : P.contains q = true <;> simp [h1, h2, pyrt, pt?]
-  | plane c => simp [pyrt]
-  | seg c => simp [pyrt]
-  | halfline c => simp [pyrt]
-  | line L =>
-    simp only [pyrt, decide_true, if_true, reduceCtorEq, decide_false, Bool.false_eq_true, if_false]
-    rcases interLinePolygon s.line P with e | o
-    · simp [pyrt]
-    rcases o with _ | ⟨g | Q | B'⟩
-    · simp [pyrt]
-    · cases g <;> simp [pyrt]
-    · simp [pyrt]
-    · simp [pyrt]
-
-theorem h_inter_convexpolygon_halfline_eq (P : Polygon) (h : HalfLine) :
-    h_inter_convexpolygon_halfline (.obj (.polygon P)) (.obj (.flat (.halfline h))) =
-      Val.ofRes (interPolygonHalfLine P h) := by
-  unfold h_inter_convexpolygon_halfline
-  simp only [pyrt, interPolygonHalfLine, interCarrierPolygon]
-  rcases hlp : interLinePlane h.line P.plane with e | o
-  · exact absurd hlp (interLinePlane_ne_error _ _ e)
-  rcases o with _ | g
-  · simp [pyrt]
-  cases g with
-  | point q =>
-    simp only [pyrt, decide_true, if_true, reduceCtorEq, decide_false, Bool.false_eq_true, if_false]
-    by_cases h1 : h.contains q = true <;> by_cases h2 : P.contains q = true <;> simp [h1, h2, pyrt, pt?]
-  | plane c => simp [pyrt]
-  | seg c => simp [pyrt]
-  | halfline c => simp [pyrt]
-  | line L =>
-    simp only [pyrt, decide_true, if_true, reduceCtorEq, decide_false, Bool.false_eq_true, if_false]
-    rcases interLinePolygon h.line P with e | o
-    · simp [pyrt]
-    rcases o with _ | ⟨g | Q | B'⟩
-    · simp [pyrt]
-    · cases g <;> simp [pyrt]
-    · simp [pyrt]
-    · simp [pyrt]
-
-/-! ### `inter_point_convexpolygon`, `inter_point_convexpolyhedron` -/
-theorem h_inter_point_convexpolygon_eq (p : V3) (P : Polygon) :
-    h_inter_point_convexpolygon (.obj (.flat (.point p))) (.obj (.polygon P)) = Val.ofRes (interPointPolygon p P) := by
-  unfold h_inter_point_convexpolygon
-  by_cases h : P.contains p = true <;> simp [pyrt, interPointPolygon, pt?, h]
-
-theorem h_inter_point_convexpolyhedron_eq (p : V3) (B : Polyhedron) :
-    h_inter_point_convexpolyhedron (.obj (.flat (.point p))) (.obj (.polyhedron B)) = Val.ofRes (interPointPolyhedron p B) := by
-  unfold h_inter_point_convexpolyhedron
-  by_cases h : B.contains p = true <;> simp [pyrt, interPointPolyhedron, pt?, h]
-
-/-! ## the flat handlers of calc/intersection.py that are written in terms of other handlers -/
-
-@[pyrt] theorem pySetAdd_nil_pt (q : V3) :
-    pySetAdd (.set []) (.obj (.flat (.point q))) = .ok (.set ((addNew [] q).map ptObj)) :=
-  pySetAdd_pt [] q
-
-/-- the tail of the collinear handlers, after evaluation of the runtime primitives:
-    `if len(s) == 0: return None; l = list(s); if len(s) == 1: return l[0]; elif len(s) == 2: Segment(l[0], l[1]); else Bug` -/
-theorem pointTail2_eq (acc : List V3) :
-    (if (((acc.map ptObj).length : Int) == 0) = true then Except.ok Val.none
-     else if (((acc.map ptObj).length : Int) == 1) = true then pyIndex (Val.seq (acc.map ptObj)) (Val.int 0)
-     else if (((acc.map ptObj).length : Int) == 2) = true then do
-       let x ← pyIndex (Val.seq (acc.map ptObj)) (Val.int 0)
-       let y ← pyIndex (Val.seq (acc.map ptObj)) (Val.int 1)
-       pySegment x y
-     else Except.error BErr.bug) = Val.ofRes (liftFlat (ofPointSet acc)) := by
-  have := ofPoints_cases acc
-  unfold ofPoints at this
-  rw [this]
-  match acc with
-  | [] => simp [pyrt]
-  | [p] => simp [pyrt, ptObj]
-  | [p, q] => simp [pyrt, ptObj]
-  | p :: q :: r :: rest =>
-    have h0 : ¬ ((rest.length : Int) + 1 + 1 + 1 = 0) := by omega
-    have h1 : ¬ ((rest.length : Int) + 1 + 1 = 0) := by omega
-    have h2 : ¬ ((rest.length : Int) + 1 + 1 + 1 = 2) := by omega
-    simp [pyrt, h0, h1, h2]
-
-/-- the non-collinear branch shared by the three collinear handlers -/
-theorem crossing_eq (c1 c2 : V3 → Bool) (r : Res) :
-    (do let inter_l_l ← Val.ofRes (liftFlat r)
-        if (pyIsNone inter_l_l).truthy = true then Except.ok Val.none
-        else if (pyIsInstance inter_l_l PyTy.Point).truthy = true then do
-          let c ← pyAnd (match inter_l_l with | .obj (.flat (.point q)) => .ok (.bool (c1 q)) | _ => .error .typeMismatch)
-                    (match inter_l_l with | .obj (.flat (.point q)) => .ok (.bool (c2 q)) | _ => .error .typeMismatch)
-          if c.truthy = true then Except.ok inter_l_l else Except.ok Val.none
-        else Except.error BErr.bug) =
-      Val.ofRes (liftFlat (match r with
-        | .ok none => .ok none
-        | .ok (some (.point q)) => .ok (if c1 q && c2 q then some (.point q) else none)
-        | .ok _ => .error .bug
-        | .error e => .error e)) := by
-  rcases r with e | o
-  · cases e <;> simp [pyrt, liftFlat]
-  rcases o with _ | g
-  · simp [pyrt]
-  cases g with
-  | point q => by_cases h1 : c1 q = true <;> by_cases h2 : c2 q = true <;> simp [pyrt, h1, h2]
-  | _ => simp [pyrt]
-
-theorem h_inter_segment_segment_eq (a b : Seg) :
-    h_inter_segment_segment (.obj (.flat (.seg a))) (.obj (.flat (.seg b))) =
-      Val.ofRes (liftFlat (interSegSeg a b)) := by
-  unfold h_inter_segment_segment
-  simp only [pyrt, List.map_map, interSegSeg]
-  by_cases heq : a.line.eqv b.line = true
-  · simp only [heq, if_true]
-    by_cases h1 : b.contains a.a = true <;> by_cases h2 : b.contains a.b = true <;>
-      by_cases h3 : a.contains b.a = true <;> by_cases h4 : a.contains b.b = true <;>
-      simp only [h1, h2, h3, h4, if_true, if_false, pySetAdd_pt, pySetAdd_nil_pt, ok_bind, Bool.false_eq_true] <;>
-      first
-        | exact pointTail2_eq []
-        | (generalize addNew _ _ = acc; exact pointTail2_eq acc)
-  · simp only [heq, if_false, Bool.false_eq_true]
-    rcases interLineLine a.line b.line with e | o
-    · cases e <;> simp [pyrt, liftFlat]
-    rcases o with _ | g
-    · simp [pyrt]
-    cases g with
-    | point q => by_cases h1 : a.contains q = true <;> by_cases h2 : b.contains q = true <;> simp [pyrt, h1, h2]
-    | _ => simp [pyrt]
-
-theorem h_inter_segment_halfline_eq (a : Seg) (b : HalfLine) :
-    h_inter_segment_halfline (.obj (.flat (.seg a))) (.obj (.flat (.halfline b))) =
-      Val.ofRes (liftFlat (interSegHalfLine a b)) := by
-  unfold h_inter_segment_halfline
-  simp only [pyrt, List.map_map, interSegHalfLine]
-  by_cases heq : a.line.eqv b.line = true
-  · simp only [heq, if_true]
-    by_cases h1 : b.contains a.a = true <;> by_cases h2 : b.contains a.b = true <;>
-      by_cases h3 : a.contains b.p = true <;>
-      simp only [h1, h2, h3, if_true, if_false, pySetAdd_pt, pySetAdd_nil_pt, ok_bind, Bool.false_eq_true] <;>
-      first
-        | exact pointTail2_eq []
-        | (generalize addNew _ _ = acc; exact pointTail2_eq acc)
-  · simp only [heq, if_false, Bool.false_eq_true]
-    rcases interLineLine a.line b.line with e | o
-    · cases e <;> simp [pyrt, liftFlat]
-    rcases o with _ | g
-    · simp [pyrt]
-    cases g with
-    | point q => by_cases h1 : a.contains q = true <;> by_cases h2 : b.contains q = true <;> simp [pyrt, h1, h2]
-    | _ => simp [pyrt]
-
-theorem h_inter_halfline_halfline_eq (a b : HalfLine) :
-    h_inter_halfline_halfline (.obj (.flat (.halfline a))) (.obj (.flat (.halfline b))) =
-      Val.ofRes (liftFlat (interHalfLineHalfLine a b)) := by
-  unfold h_inter_halfline_halfline
-  simp only [pyrt, List.map_map, interHalfLineHalfLine]
-  by_cases heq : a.line.eqv b.line = true
-  · simp only [heq, if_true]
-    by_cases hab : b.containsHL a = true
-    · simp [hab, pyrt]
-    by_cases hba : a.containsHL b = true
-    · simp [hab, hba, pyrt]
-    simp only [hab, hba, if_false, Bool.false_eq_true]
-    by_cases h1 : b.contains a.p = true <;> by_cases h2 : a.contains b.p = true <;>
-      simp only [h1, h2, if_true, if_false, pySetAdd_pt, pySetAdd_nil_pt, ok_bind, Bool.false_eq_true] <;>
-      first
-        | exact pointTail2_eq []
-        | (generalize addNew _ _ = acc; exact pointTail2_eq acc)
-  · simp only [heq, if_false, Bool.false_eq_true]
-    rcases interLineLine a.line b.line with e | o
-    · cases e <;> simp [pyrt, liftFlat]
-    rcases o with _ | g
-    · simp [pyrt]
-    cases g with
-    | point q => by_cases h1 : a.contains q = true <;> by_cases h2 : b.contains q = true <;> simp [pyrt, h1, h2]
-    | _ => simp [pyrt]
-
-theorem h_inter_line_segment_eq (l : Line) (s : Seg) :
-    h_inter_line_segment (.obj (.flat (.line l))) (.obj (.flat (.seg s))) = Val.ofRes (liftFlat (interLineSeg l s)) := by
-  unfold h_inter_line_segment
-  simp only [pyrt, interLineSeg]
-  rcases interLineLine l s.line with e | o
-  · cases e <;> simp [pyrt, liftFlat]
-  rcases o with _ | g
-  · simp [pyrt]
-  cases g <;> simp [pyrt]
-
-theorem h_inter_line_halfline_eq (l : Line) (h : HalfLine) :
-    h_inter_line_halfline (.obj (.flat (.line l))) (.obj (.flat (.halfline h))) =
-      Val.ofRes (liftFlat (interLineHalfLine l h)) := by
-  unfold h_inter_line_halfline
-  simp only [pyrt, interLineHalfLine]
-  rcases interLineLine l h.line with e | o
-  · cases e <;> simp [pyrt, liftFlat]
-  rcases o with _ | g
-  · simp [pyrt]
-  cases g <;> simp [pyrt]
-
-theorem h_inter_plane_segment_eq (a : Plane) (s : Seg) :
-    h_inter_plane_segment (.obj (.flat (.plane a))) (.obj (.flat (.seg s))) = Val.ofRes (liftFlat (interPlaneSeg a s)) := by
-  unfold h_inter_plane_segment
-  simp only [pyrt, interPlaneSeg]
-  rcases interLinePlane s.line a with e | o
-  · cases e <;> simp [pyrt, liftFlat]
-  rcases o with _ | g
-  · simp [pyrt]
-  cases g <;> simp [pyrt]
-
-theorem h_inter_plane_halfline_eq (a : Plane) (h : HalfLine) :
-    h_inter_plane_halfline (.obj (.flat (.plane a))) (.obj (.flat (.halfline h))) =
-      Val.ofRes (liftFlat (interPlaneHalfLine a h)) := by
-  unfold h_inter_plane_halfline
-  simp only [pyrt, interPlaneHalfLine]
-  rcases interLinePlane h.line a with e | o
-  · cases e <;> simp [pyrt, liftFlat]
-  rcases o with _ | g
-  · simp [pyrt]
-  cases g <;> simp [pyrt]
-
-/-! ### the five `inter_point_*` flat handlers -/
-theorem h_inter_point_point_eq (p q : V3) :
-    h_inter_point_point (.obj (.flat (.point p))) (.obj (.flat (.point q))) = Val.ofRes (liftFlat (interPointPoint p q)) := by
-  unfold h_inter_point_point
-  by_cases h : p = q <;> simp [pyrt, interPointPoint, h]
-
-theorem h_inter_point_line_eq (p : V3) (l : Line) :
-    h_inter_point_line (.obj (.flat (.point p))) (.obj (.flat (.line l))) = Val.ofRes (liftFlat (interPointLine p l)) := by
-  unfold h_inter_point_line
-  by_cases h : l.contains p = true <;> simp [pyrt, interPointLine, h]
-
-theorem h_inter_point_plane_eq (p : V3) (a : Plane) :
-    h_inter_point_plane (.obj (.flat (.point p))) (.obj (.flat (.plane a))) = Val.ofRes (liftFlat (interPointPlane p a)) := by
-  unfold h_inter_point_plane
-  by_cases h : a.contains p = true <;> simp [pyrt, interPointPlane, h]
-
-theorem h_inter_point_segment_eq (p : V3) (s : Seg) :
-    h_inter_point_segment (.obj (.flat (.point p))) (.obj (.flat (.seg s))) = Val.ofRes (liftFlat (interPointSeg p s)) := by
-  unfold h_inter_point_segment
-  by_cases h : s.contains p = true <;> simp [pyrt, interPointSeg, h]
-
-theorem h_inter_point_halfline_eq (p : V3) (hl : HalfLine) :
-    h_inter_point_halfline (.obj (.flat (.point p))) (.obj (.flat (.halfline hl))) =
-      Val.ofRes (liftFlat (interPointHalfLine p hl)) := by
-  unfold h_inter_point_halfline
-  by_cases h : hl.contains p = true <;> simp [pyrt, interPointHalfLine, h]
-
-/-! ## axiom audit -/
-#print axioms h_get_segment_from_point_list_eq
-#print axioms h_points_in_a_line_eq
-#print axioms h_get_segment_convexpolygon_intersection_point_set_eq
-#print axioms h_get_segment_convexpolyhedron_intersection_point_set_eq
-#print axioms h_get_halfline_convexpolyhedron_intersection_point_set_eq
-#print axioms h_inter_line_convexpolyhedron_eq
-#print axioms h_inter_plane_convexpolyhedron_eq
-#print axioms h_inter_segment_convexpolyhedron_eq
-#print axioms h_inter_convexpolyhedron_halfline_eq
-#print axioms h_inter_convexpolygon_convexPolyhedron_eq
-#print axioms h_inter_convexpolyhedron_convexpolyhedron_eq
-#print axioms h_inter_convexpolygon_convexpolygon_eq
-#print axioms h_inter_convexpolygon_convexpolygon_eq_of_valid
-#print axioms h_inter_line_convexpolygon_eq
-#print axioms h_inter_plane_convexpolygon_eq
-#print axioms h_inter_segment_convexpolygon_eq
-#print axioms h_inter_convexpolygon_halfline_eq
-#print axioms h_inter_point_convexpolygon_eq
-#print axioms h_inter_point_convexpolyhedron_eq
-#print axioms h_inter_segment_segment_eq
-#print axioms h_inter_segment_halfline_eq
-#print axioms h_inter_halfline_halfline_eq
-#print axioms h_inter_line_segment_eq
-#print axioms h_inter_line_halfline_eq
-#print axioms h_inter_plane_segment_eq
-#print axioms h_inter_plane_halfline_eq
-#print axioms h_inter_point_point_eq
-#print axioms h_inter_point_line_eq
-#print axioms h_inter_point_plane_eq
-#print axioms h_inter_point_segment_eq
-#print axioms h_inter_point_halfline_eq
-
-end G3D.Tie
+        all parallelism tests before the division in the model, interleaved in the code: `forIn_relStep`).
+
+    The theorems live in four modules that do NOT import each other (fault isolation: a change of one Python
+    handler breaks only the module of its group): `HandlersTieFlat` (C01), `HandlersTiePolygon`, `HandlersTiePolyhedron`
+    (C02), `HandlersTieBody` (C03); shared lemmas in `HandlersTieShared`.  This file only collects them. -/
